@@ -870,9 +870,12 @@ class SupplyHarness(object):
         self.second = 0
         if self.block2 is not None:
             sv = z3.Int("second_file")
-            e.assume(z3.And(sv >= 0, sv <= 2))
+            e.assume(z3.And(sv >= 0, sv <= 3))
             self.second = e.choose(sv)
-        if self.second:
+        if self.second == 3:
+            # the second block is stated in the YAML file itself (splicer_code), next to the file that supplies the first
+            d["splicer_code"] = {self.group: nest({self.block2: ["TAG2_%s();" % self.group]})}
+        elif self.second:
             fn2 = "more_%s%s" % (self.group, self.ext)
             tmpfiles[fn2] = "%s splicer begin %s\nTAG2_%s();\n%s splicer end %s\n" % (self.comment, self.block2, self.group, self.comment, self.block2)
             names = [fn, fn2] if self.second == 1 else [fn2, fn]
@@ -916,7 +919,7 @@ class SupplyHarness(object):
                         seen2 = True
                         if txt != ["TAG2_%s();" % self.group]:
                             fail = "block %s of the %s output does not hold the body from the second %s file (%s; files given as %s): %r" % (
-                                name, g, self.group, self.ext, "first, second" if self.second == 1 else "second, first", txt[:3])
+                                name, g, self.group, self.ext, {1: "first, second", 2: "second, first", 3: "a file and splicer_code"}[self.second], txt[:3])
                     elif any(t.startswith("TAG") for t in txt):
                         fail = "the body supplied for group %s appears in %s block %s" % (self.group, g, name)
             if fail:
